@@ -1,6 +1,6 @@
 """C02 — received application bytes are a prefix of what was sent: static necessary conditions (DESIGN §4 C02)."""
 from .. import build, report, oblig, irf, fold, wmw
-from ..oblig import Ob, Call, ICall, Var, FieldLoad, RET, ALL, NOCALL, CALLDOM, E
+from ..oblig import Ob, Call, ICall, Var, FieldLoad, RET, RET_NONZERO, ALL, NOCALL, CALLDOM, E
 from ..build import AnalysisBroken
 from . import c20
 
@@ -97,6 +97,43 @@ def length_gates(chk, rule='record-length-gate'):
            'record length is not a multiple of the 8-byte block (3DES): the CBC decryption loop of the block cipher would run past the record',
            rule=rule, extra_hyps=[(Var('blen', 'last'), ('assume', 'eq', 8))]),
     ])
+
+
+def length_gates_accept(chk, rule='record-length-admits-full-fragment'):
+    """the other side of the gate: a record carrying exactly 2^14 plaintext bytes (what a conforming peer's largest write
+    produces) and an empty record are admitted by every mode's check_length; one byte more is refused (non-vacuity control)"""
+    for mode, src, dec, gate in (('gcm', 'src/ssl/ssl_rec_gcm.c', 'gcm_decrypt', 'gcm_check_length'),
+                                 ('chapol', 'src/ssl/ssl_rec_chapol.c', 'chapol_decrypt', 'chapol_check_length')):
+        K = {'gcm': 24, 'chapol': 16}[mode]      # 8-byte explicit nonce + 16-byte tag; 16-byte tag (RFC 5288, RFC 7905)
+        oblig.run_obligations(chk, [
+            Ob(src, gate, Var('rlen', 'param'), ('assume', 'eq', 16384 + K), RET_NONZERO(), ('assume', 'eq', 16384 + K + 1),
+               'a record with exactly 2^14 plaintext bytes (%d on the wire) is what a full-size write produces; refusing it breaks the stream' % (16384 + K), rule=rule),
+            Ob(src, gate, Var('rlen', 'param'), ('assume', 'eq', K), RET_NONZERO(), ('assume', 'eq', K - 1),
+               'an empty record (%d bytes of overhead only) is legal' % K, rule=rule),
+        ])
+    src = 'src/ssl/ssl_rec_ccm.c'
+    oblig.run_obligations(chk, [
+        Ob(src, 'ccm_check_length', Var('rlen', 'param'), ('assume', 'eq', 16384 + 8 + tl), RET_NONZERO(), ('assume', 'eq', 16384 + 8 + tl + 1),
+           'a record with exactly 2^14 plaintext bytes is admitted (tag_len %d)' % tl, rule=rule,
+           extra_hyps=[(Var('over', 'last'), ('assume', 'eq', 8 + tl))])
+        for tl in (8, 16)])
+    # CBC: 2^14 plaintext + MAC + padding up to the next block (+ explicit IV); checked for the (block, mac) pairs of the suites
+    src = 'src/ssl/ssl_rec_cbc.c'
+    Lc = irf.Layouts(oblig.funit(src).unit)
+    o_mac = Lc.field('br_sslrec_in_cbc_context', 'mac_len')[0]
+    o_iv = Lc.field('br_sslrec_in_cbc_context', 'explicit_IV')[0]
+    obs = []
+    for blen, mac in ((16, 20), (16, 32), (16, 48), (8, 20)):
+        body = (16384 + mac + blen) & ~(blen - 1)      # plaintext + MAC + at least one padding byte, rounded to a block
+        for iv in (0, 1):
+            tot = body + iv * blen
+            obs.append(Ob(src, 'cbc_check_length', Var('rlen', 'param'), ('assume', 'eq', tot), RET_NONZERO(), ('assume', 'eq', 16384 + 512 + 64),
+                          'a CBC record of 2^14 plaintext bytes, %d-byte MAC, minimal padding%s (%d bytes) is admitted'
+                          % (mac, ', explicit IV' if iv else '', tot), rule=rule,
+                          extra_hyps=[(Var('blen', 'last'), ('assume', 'eq', blen)),
+                                      (FieldLoad(0, o_mac, 'mac_len'), ('assume', 'eq', mac)),
+                                      (FieldLoad(0, o_iv, 'explicit_IV'), ('assume', 'eq', iv))]))
+    oblig.run_obligations(chk, obs)
 
 
 def engine_rules(chk):
